@@ -23,7 +23,8 @@ RULE = ("(systematic) for each index rule (name: +1 zero form; prefix: 'same' ze
         "never zero) the REAL LookupEncoder and LookupDecoder are driven breadth-first through every next key (each "
         "resident key, one fresh key, the empty key) from every reachable joint state, canonicalised under key renaming; "
         "closure = no new canonical state. (walks) long adversarial random walks through TermEncoder.encode_iri / "
-        "encode_literal -> Decoder for sizes 8..4000. Oracles on every transition: ids in [0,size]; live entries <= size; "
+        "encode_literal -> Decoder for sizes 8..4000; (row walks) statement-shaped histories through TermEncoder.begin_row with "
+        "tiny tables, where all entry rows of a row are ingested before its terms are resolved (a refused row is fine). Oracles on every transition: ids in [0,size]; live entries <= size; "
         "string resolved by the real reader == string meant; same through an independent table; writer map and reader "
         "table mirror each other. Non-trivial = distinct canonical states in which the table is full (BFS) plus walk "
         "steps that evicted.")
@@ -38,7 +39,7 @@ MARKERS = {
     "writer-empty-prefix-zero": ("pyjelly/serialize/lookup.py", r"if not value and previous_index == 0"),
     "reader-name-zero": ("pyjelly/parse/lookup.py", r"index or self\.last_reused_index \+ 1"),
 }
-REQUIRED_OBSERVED = ["bfs-transitions", "walk-steps"]
+REQUIRED_OBSERVED = ["bfs-transitions", "walk-steps", "row-walk-terms-resolved"]
 MIN_NONTRIVIAL = 50
 MANIFEST = {
     "text": "Closure of the reachable joint writer/reader state space on the real LookupEncoder/LookupDecoder objects "
@@ -358,6 +359,85 @@ def walk(ctx, rng, sizes: tuple[int, int, int], steps: int, deadline: float):
                      "last_keys": [list(h) for h in list(hist)[-6:]]})
 
 
+def row_walk(ctx, rng, sizes: tuple[int, int, int], rows: int, deadline: float):
+    """Statement-shaped histories: all entry rows of a row are ingested BEFORE its terms are resolved.
+
+    Drives TermEncoder with begin_row() per row, exactly like Stream.triple/quad do. A row the encoder refuses
+    (JellyConformanceError) is acceptable - the pair is then replaced, as a failed stream would be.
+    """
+    from pyjelly.errors import JellyConformanceError
+
+    n, p, d = sizes
+    preset = LookupPreset(max_names=n, max_prefixes=p, max_datatypes=d)
+
+    def fresh():
+        enc = GenericSinkTermEncoder(lookup_preset=preset)
+        popts = ParserOptions(stream_types=StreamTypes(physical_type=1, logical_type=1), lookup_preset=preset,
+                              params=StreamParameters())
+        return enc, Decoder(adapter=GenericTriplesAdapter(popts))
+
+    enc, dec = fresh()
+    prefixes = [f"http://p{i}/" for i in range(max(2, p + 2))]
+    names = [f"n{i}" for i in range(n + 3)]
+    dts = [f"http://dt/{i}" for i in range(d + 2)] if d else []
+    hist = deque(maxlen=12)
+    refused = resolved = 0
+    for r in range(rows):
+        if r % 256 == 0 and time.monotonic() > deadline:
+            break
+        k = rng.choice([1, 2, 3, 3, 4, 6])
+        terms = []
+        for _ in range(k):
+            if dts and rng.random() < .25:
+                terms.append(("lit", rng.choice(dts)))
+            else:
+                terms.append(("iri", (rng.choice(prefixes) if p else "w:") + rng.choice(names[: rng.choice([3, len(names)])])))
+        hist.append(terms)
+        ctx.observe("row-walk-rows")
+        enc.begin_row()
+        entry_rows, msgs = [], []
+        try:
+            for kind, val in terms:
+                if kind == "iri":
+                    m = jelly.RdfIri()
+                    entry_rows.extend(enc.encode_iri(val, m))
+                else:
+                    m = jelly.RdfLiteral()
+                    entry_rows.extend(enc.encode_literal(lex="x", datatype=val, literal=m))
+                msgs.append((kind, val, m))
+        except JellyConformanceError:
+            refused += 1
+            enc, dec = fresh()          # a stream that refused a statement is not used any further
+            continue
+        except Exception as ex:  # noqa: BLE001
+            _walk_violation(ctx, Broken("writer-raised", f"{type(ex).__name__}: {ex}"), sizes, "rows", hist)
+            return
+        try:
+            for row in entry_rows:
+                which = row.WhichOneof("row")
+                e = getattr(row, which)
+                size = {"name": n, "prefix": p, "datatype": d}[which]
+                if not 0 <= e.id <= size:
+                    raise Broken("id-range", f"{which} entry id {e.id} not in [0,{size}]")
+                dec.decode_row(e)
+            for kind, val, m in msgs:          # resolved only now: entries precede the row on the wire
+                got = dec.decode_iri(m)._iri if kind == "iri" else dec.decode_literal(m)._datatype
+                resolved += 1
+                if got != val:
+                    raise Broken("resolved-differs", f"row {terms}: {kind} resolved to {got!r}, writer meant {val!r}")
+        except Broken as b:
+            _walk_violation(ctx, b, sizes, "rows", hist)
+            return
+        except Exception as ex:  # noqa: BLE001
+            _walk_violation(ctx, Broken("reader-raised", f"{type(ex).__name__}: {ex}"), sizes, "rows", hist)
+            return
+    ctx.observe("row-walk-terms-resolved", resolved)
+    ctx.observe("row-walk-rows-refused", refused)
+    ctx.case(("rows", sizes, ctx.shard, rng.random()), resolved > 0,
+             sample={"kind": "row-walk", "sizes": list(sizes), "rows_refused": refused, "terms_resolved": resolved,
+                     "last_rows": [list(map(list, h)) for h in list(hist)[-3:]]})
+
+
 def _walk_violation(ctx, b: Broken, sizes, mode, hist):
     ctx.violation({"clause": b.clause, "kind": "walk", "sizes": list(sizes), "mode": mode,
                    "history_tail": [list(h) for h in hist],
@@ -392,6 +472,9 @@ def run_shard(ctx):
         rng = ctx.rng("walk", i)
         sizes = walk_sizes[(i + ctx.shard) % len(walk_sizes)]
         walk(ctx, rng, sizes, 20_000 if ctx.tier == "quick" else 200_000, max(ctx.deadline, time.monotonic() + 3))
+        row_sizes = [(8, 1, 1), (8, 2, 2), (8, 3, 1), (9, 2, 0), (8, 0, 2), (12, 4, 3), (16, 3, 3)][(i + ctx.shard) % 7]
+        row_walk(ctx, ctx.rng("rows", i), row_sizes, 3_000 if ctx.tier == "quick" else 30_000,
+                 max(ctx.deadline, time.monotonic() + 2))
         i += 1
 
 
